@@ -34,7 +34,8 @@ type Smp struct {
 }
 
 type Op struct {
-	K    string // F AddFullSample, T AddFullSampleToTrack, M AddSampleToTrack, A AddSample, S AddSamples, I AddSampleInterval
+	K string // F AddFullSample, T AddFullSampleToTrack, M AddSampleToTrack, A AddSample, S AddSamples, I AddSampleInterval,
+	// E AddEmsg (Tr = payload length), C f.AddChild(box with code Tr), N Fragment.Encode without optimisation into a scratch buffer
 	Tr   uint32
 	Ss   []Smp
 	Dts  uint64
@@ -46,8 +47,9 @@ type Frag struct {
 	Seq     uint32
 	Tracks  []uint32
 	Ops     []Op
-	Emsg    int     // emsg boxes added with AddEmsg
-	Prft    bool    // prft box placed first in the fragment
+	Pre0    []int   // boxes placed in front of the moof directly (f.Children = append(box, f.Children...)), first one first
+	Emsg    int     // emsg boxes added with AddEmsg (after Pre0 / Prft, before Post and Ops)
+	Prft    bool    // prft box placed first in the fragment (as Pre0 = [prft])
 	MoofX   []int   // extra children of moof (box codes)
 	TrafX   [][]int // extra children per traf (box codes)
 	Post    []int   // boxes after mdat inside the fragment (f.AddChild)
@@ -140,7 +142,81 @@ type fragRun struct {
 	lazy    []byte // data the caller writes after the encoded fragment
 	expect  map[uint32][]mp4.FullSample
 	modes   map[byte]bool // data modes used: f full, l lazy, p parts
-	pre     uint64        // size of the boxes before moof
+	pre     uint64        // size of the boxes before moof (measured on f.Children after the history)
+	post    uint64        // size of the boxes after mdat (measured)
+	all     []Op          // the ops that were run: those of the spec's Emsg / Post fields, then spec.Ops
+}
+
+// pre0 is the list of boxes the spec puts in front of the moof directly
+func (fs *Frag) pre0() []int {
+	var cs []int
+	if fs.Prft {
+		cs = append(cs, 300000)
+	}
+	return append(cs, fs.Pre0...)
+}
+
+// allOps: the spec's Emsg and Post fields are AddEmsg / AddChild calls made before the ops
+func (fs *Frag) allOps() []Op {
+	var ops []Op
+	for i := 0; i < fs.Emsg; i++ {
+		ops = append(ops, Op{K: "E", Tr: uint32(i)})
+	}
+	for _, c := range fs.Post {
+		ops = append(ops, Op{K: "C", Tr: uint32(c)})
+	}
+	return append(ops, fs.Ops...)
+}
+
+// layoutOf: the children of a fragment as the model prints them: M moof, D mdat, e<size> emsg, o<size> any other box
+func layoutOf(f *mp4.Fragment) string {
+	var sb strings.Builder
+	for i, c := range f.Children {
+		if i > 0 {
+			sb.WriteString(",")
+		}
+		if c == nil {
+			sb.WriteString("nil")
+			continue
+		}
+		switch c.Type() {
+		case "moof":
+			sb.WriteString("M")
+		case "mdat":
+			sb.WriteString("D")
+		case "emsg":
+			sb.WriteString("e" + hx.HexU(c.Size()))
+		default:
+			sb.WriteString("o" + hx.HexU(c.Size()))
+		}
+	}
+	if sb.Len() == 0 {
+		return "-"
+	}
+	return sb.String()
+}
+
+// measure sets pre / post from the real children
+func (r *fragRun) measure() {
+	r.pre, r.post = 0, 0
+	seenMoof, seenMdat := false, false
+	for _, c := range r.f.Children {
+		if c == nil {
+			continue
+		}
+		switch c.Type() {
+		case "moof":
+			seenMoof = true
+		case "mdat":
+			seenMdat = true
+		default:
+			if !seenMoof {
+				r.pre += c.Size()
+			} else if seenMdat {
+				r.post += c.Size()
+			}
+		}
+	}
 }
 
 func cls(p string, err error) byte {
@@ -192,23 +268,21 @@ func buildFrag(fs *Frag) *fragRun {
 			}
 		}
 	}
-	for i := 0; i < fs.Emsg; i++ {
-		e := mkBox(400000 + i).(*mp4.EmsgBox)
-		f.AddEmsg(e)
-		f.Emsgs = append(f.Emsgs, e)
-		r.pre += e.Size()
+	pre0 := fs.pre0()
+	for i := len(pre0) - 1; i >= 0; i-- {
+		b := mkBox(pre0[i])
+		if p, ok := b.(*mp4.PrftBox); ok {
+			f.Prft = p
+		}
+		if e, ok := b.(*mp4.EmsgBox); ok {
+			f.Emsgs = append([]*mp4.EmsgBox{e}, f.Emsgs...)
+		}
+		f.Children = append([]mp4.Box{b}, f.Children...)
 	}
-	if fs.Prft {
-		p := mkBox(300000).(*mp4.PrftBox)
-		f.Prft = p
-		f.Children = append([]mp4.Box{p}, f.Children...)
-		r.pre += p.Size()
-	}
-	for _, c := range fs.Post {
-		f.AddChild(mkBox(c))
-	}
-	for i := range fs.Ops {
-		op := &fs.Ops[i]
+	r.all = fs.allOps()
+	defer r.measure()
+	for i := range r.all {
+		op := &r.all[i]
 		data := hx.UnHex(op.Data)
 		var err error
 		var track uint32
@@ -245,6 +319,16 @@ func buildFrag(fs *Frag) *fragRun {
 				}
 				err = f.AddSampleInterval(mp4.SampleInterval{FirstDecodeTime: op.Dts, Samples: ss, Data: data})
 				r.modes['p'] = true
+			case "E":
+				e := mkBox(400000 + int(op.Tr)%100000).(*mp4.EmsgBox)
+				f.AddEmsg(e)
+				f.Emsgs = append(f.Emsgs, e)
+			case "C":
+				f.AddChild(mkBox(int(op.Tr)))
+			case "N":
+				f.EncOptimize = mp4.OptimizeNone
+				var scratch bytes.Buffer
+				err = f.Encode(&scratch)
 			}
 		})
 		c := cls(p, err)
@@ -252,7 +336,7 @@ func buildFrag(fs *Frag) *fragRun {
 		if c == 'p' {
 			break
 		}
-		if c == 'o' {
+		if c == 'o' && op.K != "E" && op.K != "C" && op.K != "N" {
 			if op.K == "M" || op.K == "A" || op.K == "S" {
 				r.lazy = append(r.lazy, data...)
 			}
@@ -362,6 +446,12 @@ func smps(ss []Smp) []mp4.Sample {
 
 func opString(o *Op) string {
 	switch o.K {
+	case "E":
+		return "E:" + xboxOfCode(400000+int(o.Tr)%100000)
+	case "C":
+		return "C:" + xboxOfCode(int(o.Tr))
+	case "N":
+		return "N"
 	case "F", "A":
 		return o.K + ":" + hs(toSample(o.Ss[0])) + ":" + hx.HexU(o.Dts) + ":" + o.Data
 	case "T", "M":
@@ -509,6 +599,7 @@ func genSeg(r *hx.Rng, wild bool) *Seg {
 		}
 		nops := r.Pick(0, 1, 2, 2, 3, 3, 4, 5, 6, 8, 12, 20, 40)
 		nops = r.Range(nops/2, nops)
+		layOps := r.Intn(3) == 0
 		// runs: consecutive additions to one track
 		cur := fr.Tracks[r.Intn(len(fr.Tracks))]
 		for i := 0; i < nops; i++ {
@@ -576,7 +667,27 @@ func genSeg(r *hx.Rng, wild bool) *Seg {
 			if (op.K == "F" || op.K == "A") && fr.Multi && !wild {
 				continue
 			}
+			// AddEmsg / AddChild / a plain Encode interleaved with the sample additions
+			if layOps {
+				switch r.Intn(8) {
+				case 0:
+					fr.Ops = append(fr.Ops, Op{K: "E", Tr: uint32(r.Intn(6))})
+				case 1:
+					if mode != 'l' {
+						fr.Ops = append(fr.Ops, Op{K: "C", Tr: uint32(r.Pick(0, 1, 2, 3, 4, 4, 5)*100000 + r.Intn(6))})
+					}
+				case 2:
+					if !wild {
+						fr.Ops = append(fr.Ops, Op{K: "N"})
+					}
+				}
+			}
 			fr.Ops = append(fr.Ops, op)
+		}
+		if layOps {
+			for k := r.Pick(0, 0, 1, 2); k > 0; k-- {
+				fr.Ops = append(fr.Ops, Op{K: "E", Tr: uint32(r.Intn(6))})
+			}
 		}
 		if mode == 'l' {
 			anyLazy = true
@@ -584,6 +695,11 @@ func genSeg(r *hx.Rng, wild bool) *Seg {
 		// extra boxes
 		fr.Emsg = r.Pick(0, 0, 0, 1, 2)
 		fr.Prft = r.Intn(4) == 0
+		if r.Intn(4) == 0 { // boxes put in front of the moof directly: prft / emsg / free in any order
+			for k := r.Range(1, 3); k > 0; k-- {
+				fr.Pre0 = append(fr.Pre0, r.Pick(0, 3, 4, 4)*100000+r.Intn(6))
+			}
+		}
 		fr.MoofX = genBoxCodes(r, 2, []int{0, 1, 2})
 		for range fr.Tracks {
 			fr.TrafX = append(fr.TrafX, genBoxCodes(r, 2, []int{0, 1, 2}))
@@ -859,9 +975,9 @@ func checkSeg(sg *Seg) *failure {
 	for i, r := range sr.runs {
 		for j, c := range r.classes {
 			if c == 'p' {
-				return &failure{"Fragment." + opName(sg.Frags[i].Ops[j].K), "panic", fmt.Sprintf("panic in op %d of fragment %d", j, i)}
+				return &failure{"Fragment." + opName(r.all[j].K), "panic", fmt.Sprintf("panic in op %d (%s) of fragment %d (counting the spec's Emsg and Post calls)", j, r.all[j].K, i)}
 			}
-			op := &sg.Frags[i].Ops[j]
+			op := &r.all[j]
 			known := op.K != "T" && op.K != "M"
 			for _, t := range sg.Frags[i].Tracks {
 				if t == op.Tr {
@@ -990,7 +1106,7 @@ func checkSeg(sg *Seg) *failure {
 }
 
 func opName(k string) string {
-	return map[string]string{"F": "AddFullSample", "T": "AddFullSampleToTrack", "M": "AddSampleToTrack", "A": "AddSample", "S": "AddSamples", "I": "AddSampleInterval"}[k]
+	return map[string]string{"F": "AddFullSample", "T": "AddFullSampleToTrack", "M": "AddSampleToTrack", "A": "AddSample", "S": "AddSamples", "I": "AddSampleInterval", "E": "AddEmsg", "C": "AddChild", "N": "Encode"}[k]
 }
 
 func cloneSeg(sg *Seg) *Seg {
@@ -1035,8 +1151,8 @@ func shrink(sg *Seg, f *failure) *Seg {
 			}
 			c := cloneSeg(cur)
 			fr := &c.Frags[i]
-			if fr.Emsg > 0 || fr.Prft || len(fr.MoofX)+len(fr.Post)+len(fr.Between) > 0 {
-				fr.Emsg, fr.Prft, fr.MoofX, fr.Post, fr.Between = 0, false, nil, nil, nil
+			if fr.Emsg > 0 || fr.Prft || len(fr.Pre0)+len(fr.MoofX)+len(fr.Post)+len(fr.Between) > 0 {
+				fr.Emsg, fr.Prft, fr.Pre0, fr.MoofX, fr.Post, fr.Between = 0, false, nil, nil, nil, nil
 				for k := range fr.TrafX {
 					fr.TrafX[k] = nil
 				}
@@ -1185,6 +1301,110 @@ func probeBigUniform() *failure {
 	return nil
 }
 
+
+// oneSampleFragment: CreateFragment(seq,1) with one 1-byte full sample
+func oneSampleFragment(seq uint32, b byte) *mp4.Fragment {
+	f, _ := mp4.CreateFragment(seq, 1)
+	f.AddFullSample(mp4.FullSample{Sample: mp4.Sample{Flags: 0x1010000, Dur: 10, Size: 1}, DecodeTime: uint64(seq) * 10, Data: []byte{b}})
+	return f
+}
+
+// probeEmsg: AddEmsg on fragments whose children are not "emsg* moof mdat" (finding C05-F9): an emsg appended behind the mdat
+// with AddChild, a fragment decoded from a stream with an emsg behind its mdat, a fragment without children, a decoded
+// fragment made of an emsg only. AddEmsg must not panic, must put the box in front of the moof, and the fragments must
+// still round-trip.
+func probeEmsg() *failure {
+	em := func(id uint32) *mp4.EmsgBox {
+		return &mp4.EmsgBox{ID: id, TimeScale: 1000, SchemeIDURI: "urn:x", Value: "v"}
+	}
+	type scen struct {
+		name string
+		mk   func() *mp4.Fragment
+	}
+	decoded := func(tokens string, pick int) func() *mp4.Fragment {
+		return func() *mp4.Fragment {
+			var buf bytes.Buffer
+			seq := uint32(1)
+			for _, t := range tokens {
+				switch t {
+				case 'e':
+					_ = em(100 + seq).Encode(&buf)
+				case 'F':
+					_ = oneSampleFragment(seq, byte(seq)).Encode(&buf)
+					seq++
+				}
+			}
+			fl, c := decodeAll(buf.Bytes(), false)
+			if c != 'o' {
+				return nil
+			}
+			var fs []*mp4.Fragment
+			for _, sgm := range fl.Segments {
+				fs = append(fs, sgm.Fragments...)
+			}
+			if pick >= len(fs) {
+				return nil
+			}
+			return fs[pick]
+		}
+	}
+	scens := []scen{
+		{"CreateFragment(1,1); AddFullSample; AddChild(emsg)", func() *mp4.Fragment { f := oneSampleFragment(1, 1); f.AddChild(em(1)); return f }},
+		{"NewFragment()", func() *mp4.Fragment { return mp4.NewFragment() }},
+		{"first fragment of DecodeFile(moof mdat emsg moof mdat)", decoded("FeF", 0)},
+		{"first fragment of DecodeFile(emsg moof mdat emsg emsg moof mdat)", decoded("eFeeF", 0)},
+		{"the fragment of DecodeFile(emsg)", decoded("e", 0)},
+	}
+	for _, sc := range scens {
+		f := sc.mk()
+		if f == nil {
+			return &failure{"Fragment.AddEmsg", "setup", sc.name + ": cannot be built"}
+		}
+		for k := 1; k <= 3; k++ {
+			if p := hx.Try(func() { f.AddEmsg(em(uint32(k))) }); p != "" {
+				return &failure{"Fragment.AddEmsg", "panic", fmt.Sprintf("%s; AddEmsg x %d -> panic: %s", sc.name, k, p)}
+			}
+			// the new box lies in front of the moof, behind the emsg boxes that were there
+			if f.Moof != nil {
+				seen := false
+				for _, c := range f.Children {
+					if c.Type() == "moof" {
+						break
+					}
+					if e, ok := c.(*mp4.EmsgBox); ok && e.ID == uint32(k) {
+						seen = true
+					}
+				}
+				if !seen {
+					return &failure{"Fragment.AddEmsg", "behind-moof", fmt.Sprintf("%s; AddEmsg x %d: the emsg is not in front of the moof (children %s)", sc.name, k, layoutOf(f))}
+				}
+			}
+		}
+		if f.Moof == nil || f.Mdat == nil {
+			continue
+		}
+		want, wc := getFull(f, nil)
+		b, c := encodeFrag(f, true, false)
+		if c != 'o' {
+			return &failure{"Fragment.Encode", "error", sc.name + "; AddEmsg x 3; Encode fails"}
+		}
+		df, dc := decodeAll(b, false)
+		if dc != 'o' || len(df.Segments) == 0 || len(df.Segments[0].Fragments) == 0 {
+			return &failure{"DecodeFile", "error", sc.name + "; AddEmsg x 3; Encode; DecodeFile fails"}
+		}
+		got, gc := getFull(df.Segments[0].Fragments[0], nil)
+		if wc != 'o' || gc != 'o' || len(got) != len(want) {
+			return &failure{"roundtrip", "sample-count", sc.name + "; AddEmsg x 3; Encode; DecodeFile: samples differ"}
+		}
+		for i := range want {
+			if d := sameFull(want[i], got[i]); d != "" {
+				return &failure{"roundtrip", d, sc.name + "; AddEmsg x 3; Encode; DecodeFile: sample " + strconv.Itoa(i) + " differs"}
+			}
+		}
+	}
+	return nil
+}
+
 // probeMixed: metadata-only and full samples mixed in one fragment (finding C05-F8): the mdat header announces the lazy
 // size only while the full samples' data is written before the caller's data
 func probeMixed() *failure {
@@ -1241,6 +1461,10 @@ func cmdSearch(seed uint64, n int, exh int) {
 	evals++
 	if f := probeMixed(); f != nil {
 		fmt.Fprintf(out, "FAIL\t%s\t%s\t%s\t%s\n", f.site, f.class, "probe:mixed (harness/c05/main.go probeMixed)", f.desc)
+	}
+	evals++
+	if f := probeEmsg(); f != nil {
+		fmt.Fprintf(out, "FAIL\t%s\t%s\t%s\t%s\n", f.site, f.class, "probe:emsg (harness/c05/main.go probeEmsg)", f.desc)
 	}
 	// probes with metadata-only samples of huge payloads: only the data-offset oracle can be evaluated
 	big := []uint32{0xfffffff0, 0x80000000, 0x7ffffff0, 0x40000000}
@@ -1300,6 +1524,14 @@ func cmdReplay(w string) {
 			f = probeMixed()
 		}
 		if f != nil {
+			fmt.Fprintf(out, "FAIL\t%s\t%s\t%s\t%s\n", f.site, f.class, w, f.desc)
+		} else {
+			fmt.Fprintln(out, "HOLDS")
+		}
+		return
+	}
+	if strings.HasPrefix(w, "probe:emsg") {
+		if f := probeEmsg(); f != nil {
 			fmt.Fprintf(out, "FAIL\t%s\t%s\t%s\t%s\n", f.site, f.class, w, f.desc)
 		} else {
 			fmt.Fprintln(out, "HOLDS")
@@ -1560,11 +1792,15 @@ func emitH(id string, sg *Seg, sr *segRun, i int, stats map[string]int) {
 			plain = false
 		}
 	}
-	cfg := fmt.Sprintf("seq=%s;plain=%s;m=%s;t=%s;o=%s;p0=%s;pre=%s;mx=%s;tx=%s;post=%s;trex=%s;enc=%s;dec=%s", hx.HexU(uint64(fs.Seq)), b2s(plain), b2s(fs.Multi), hexCsv(tracks), b2s(sg.Opt),
-		hx.HexU(pos), hx.HexU(r.pre), hx.HexU(sumSizes(fs.MoofX)), hexCsv(trafx), hx.HexU(sumSizes(fs.Post)), strings.Join(trexs, ","), b2s(encStage), b2s(dec))
-	ops := make([]string, len(fs.Ops))
-	for k := range fs.Ops {
-		ops[k] = opString(&fs.Ops[k])
+	// the boxes around moof and mdat: only the ones put there directly are told to the model (lp); AddEmsg / AddChild are ops
+	cfg := fmt.Sprintf("seq=%s;plain=%s;m=%s;t=%s;o=%s;p0=%s;lp=%s;mx=%s;tx=%s;trex=%s;enc=%s;dec=%s", hx.HexU(uint64(fs.Seq)), b2s(plain), b2s(fs.Multi), hexCsv(tracks), b2s(sg.Opt),
+		hx.HexU(pos), codesList(fs.pre0()), hx.HexU(sumSizes(fs.MoofX)), hexCsv(trafx), strings.Join(trexs, ","), b2s(encStage), b2s(dec))
+	ops := make([]string, len(r.all))
+	for k := range r.all {
+		ops[k] = opString(&r.all[k])
+		if r.all[k].K == "E" || r.all[k].K == "C" || r.all[k].K == "N" {
+			stats["H.op-"+r.all[k].K]++
+		}
 	}
 	opss := "-"
 	if len(ops) > 0 {
@@ -1574,6 +1810,7 @@ func emitH(id string, sg *Seg, sr *segRun, i int, stats map[string]int) {
 	sb.WriteString("ops=" + string(r.classes))
 	if !r.panicked() {
 		m := f.Mdat
+		sb.WriteString("|lay=" + layoutOf(f))
 		sb.WriteString("|st=" + hx.HexU(uint64(mp4.VerifC05NextTrunNr(f))) + "/" + hx.HexU(uint64(len(m.Data))) + "/" + hx.HexU(m.GetLazyDataSize()) + "/" + hx.HexU(uint64(len(m.DataParts))))
 		sb.WriteString(trafState(f))
 		if encStage {
@@ -1798,23 +2035,16 @@ func emitG(id string, sg *Seg, sr *segRun, stats map[string]int) {
 		for k, cs := range fs.TrafX {
 			trafx[k] = sumSizes(cs)
 		}
-		var pre []string
-		if fs.Prft {
-			pre = append(pre, xboxOfCode(300000))
-		}
-		for k := 0; k < fs.Emsg; k++ {
-			pre = append(pre, xboxOfCode(400000+k))
-		}
-		ops := make([]string, len(fs.Ops))
-		for k := range fs.Ops {
-			ops[k] = opString(&fs.Ops[k])
+		ops := make([]string, len(r.all))
+		for k := range r.all {
+			ops[k] = opString(&r.all[k])
 		}
 		opss := "-"
 		if len(ops) > 0 {
 			opss = strings.Join(ops, ";")
 		}
 		fcfg := fmt.Sprintf("m=%s;t=%s;mx=%s;tx=%s", b2s(fs.Multi), hexCsv(tracks), hx.HexU(sumSizes(fs.MoofX)), hexCsv(trafx))
-		frs[i] = fcfg + "@" + opss + "@" + xboxList(pre) + "@" + codesList(fs.Post) + "@" + codesList(fs.Between)
+		frs[i] = fcfg + "@" + opss + "@" + codesList(fs.pre0()) + "@-@" + codesList(fs.Between)
 		// framing, measured on the real bytes: declared mdat payload length vs the bytes that follow the mdat header
 		// up to the first box after the fragment (boxes after the mdat inside the fragment, then the caller's data)
 		framed[i] = '0'
@@ -1830,7 +2060,7 @@ func emitG(id string, sg *Seg, sr *segRun, stats map[string]int) {
 					hdr = 16
 					declared = binary.BigEndian.Uint64(fb[mp+8 : mp+16])
 				}
-				post := int(sumSizes(fs.Post))
+				post := int(r.post)
 				actual := uint64(len(fb)-mp-hdr-post) + uint64(len(r.lazy))
 				if declared == uint64(hdr)+actual && (len(r.lazy) == 0 || post == 0) {
 					framed[i] = '1'
@@ -1910,6 +2140,94 @@ func emitG(id string, sg *Seg, sr *segRun, stats map[string]int) {
 		}
 	}
 	fmt.Fprintf(out, "G\t%s\t%s\t%s\t%s\n", id, cfg, strings.Join(frs, "#"), sb.String())
+}
+
+
+// ------------------------------------------------------------------ corr: L cases (Fragment.Children under AddEmsg / AddChild)
+
+// cmdCorrL: AddEmsg / AddChild / Encode histories on fragments of every origin: CreateFragment, CreateMultiTrackFragment,
+// NewFragment (no children), fragments decoded from streams with emsg boxes in unusual places (behind the mdat, alone,
+// several in a row), with boxes put in front directly. Observables: outcome class of every call and the children
+// (kind, size) afterwards; the model folds add_emsg / add_child over the children it is told the history starts from.
+func cmdCorrL(r *hx.Rng, n int, stats map[string]int) {
+	for i := 0; i < n; i++ {
+		var f *mp4.Fragment
+		origin := r.Pick(0, 0, 1, 2, 3, 3, 3)
+		switch origin {
+		case 0:
+			f = oneSampleFragment(1, 1)
+		case 1:
+			f, _ = mp4.CreateMultiTrackFragment(1, []uint32{1, 2})
+		case 2:
+			f = mp4.NewFragment()
+		default:
+			var buf bytes.Buffer
+			seq := uint32(1)
+			for k := r.Range(1, 6); k > 0; k-- {
+				switch r.Pick(0, 0, 1, 2) {
+				case 0:
+					_ = mkBox(400000 + r.Intn(6)).Encode(&buf)
+				case 1:
+					_ = mkBox(r.Pick(0, 3)*100000 + r.Intn(4)).Encode(&buf)
+				default:
+					_ = oneSampleFragment(seq, byte(seq)).Encode(&buf)
+					seq++
+				}
+			}
+			fl, c := decodeAll(buf.Bytes(), r.Bool())
+			var fs []*mp4.Fragment
+			if c == 'o' {
+				for _, sgm := range fl.Segments {
+					fs = append(fs, sgm.Fragments...)
+				}
+			}
+			if len(fs) == 0 {
+				f = mp4.NewFragment()
+				origin = 2
+			} else {
+				f = fs[r.Intn(len(fs))]
+			}
+		}
+		if origin != 3 && r.Intn(3) == 0 {
+			for k := r.Range(1, 3); k > 0; k-- {
+				f.Children = append([]mp4.Box{mkBox(r.Pick(0, 3, 4, 4)*100000 + r.Intn(6))}, f.Children...)
+			}
+		}
+		stats["L.origin="+strconv.Itoa(origin)]++
+		init := layoutOf(f)
+		var ops []string
+		var classes []byte
+		for k := r.Range(1, 7); k > 0; k-- {
+			var p string
+			switch r.Pick(0, 0, 0, 1, 2) {
+			case 0:
+				code := 400000 + r.Intn(6)
+				ops = append(ops, "E:"+xboxOfCode(code))
+				p = hx.Try(func() { f.AddEmsg(mkBox(code).(*mp4.EmsgBox)) })
+			case 1:
+				code := r.Pick(0, 1, 2, 3, 4, 4, 5)*100000 + r.Intn(6)
+				ops = append(ops, "C:"+xboxOfCode(code))
+				p = hx.Try(func() { f.AddChild(mkBox(code)) })
+			default:
+				if f.Moof == nil || f.Mdat == nil || f.Moof.Traf == nil {
+					continue
+				}
+				ops = append(ops, "N")
+				var scratch bytes.Buffer
+				p = hx.Try(func() { _ = f.Encode(&scratch) })
+			}
+			classes = append(classes, cls(p, nil))
+			if p != "" {
+				stats["L.panic"]++
+				break
+			}
+		}
+		if len(ops) == 0 {
+			continue
+		}
+		fmt.Fprintf(out, "L\tl%d\t%s\t%s\tops=%s|lay=%s\n", i, init, strings.Join(ops, ";"), string(classes), layoutOf(f))
+		stats["L.cases"]++
+	}
 }
 
 // ------------------------------------------------------------------ corr: B cases (malformed box sequences)
@@ -2103,6 +2421,7 @@ func cmdCorr(seed uint64, n int, exh int) {
 	cmdCorrO(hx.NewRng(mixSeed(seed, 0xc05)), n, stats)
 	cmdCorrD(hx.NewRng(mixSeed(seed, 0xd05)), n, stats)
 	cmdCorrB(hx.NewRng(mixSeed(seed, 0xb05)), n, stats)
+	cmdCorrL(hx.NewRng(mixSeed(seed, 0xe05)), n, stats)
 	r := hx.NewRng(mixSeed(seed, 0xc05c05))
 	for i := 0; i < n; i++ {
 		sg := genSeg(r, i%3 == 0)
